@@ -329,6 +329,12 @@ theorem fsmApply_records_every_entry :
       (fun c => (Expect.ReadPath.callsOf (deferBlock Gen.ReadPath.fsmApply)).contains c) = true := by
   decide
 
+/-- `IsVoter` — what AUTO is resolved with — asks raft for the CURRENT configuration on every
+call (the model's `voter` input is the node's suffrage in the configuration at the time of
+the call, not a remembered one) -/
+theorem isVoter_reads_configuration :
+    Expect.ReadPath.callsOf Gen.ReadPath.isVoter = ["s.open.Is", "s.raft.GetConfiguration"] := by decide
+
 /-- `fsmRestore` moves the FSM index (and signals the target) but records neither of the two
 times: what `Book.restore` transcribes -/
 theorem fsmRestore_keeps_times :
